@@ -10,7 +10,24 @@ from bp.encoding import (  # noqa: E402
 )
 
 
-def to_repo_primary(pri):
+_EPOCH = None
+MAX_DATETIME_MS = 253402300799999 - 946684800000      # 9999-12-31T23:59:59.999Z as DTN time
+
+
+def time_value(ms, timeform):
+    ''' The DTN time ``ms`` in the form a user of the encoding classes may give it: the integer, a datetime object
+    or ISO 8601 text (DtnTimeField documents the conversion of both).  Exact: timedelta counts whole microseconds. '''
+    global _EPOCH
+    if timeform in (None, 'int') or not 0 < ms <= MAX_DATETIME_MS:
+        return ms
+    import datetime
+    if _EPOCH is None:
+        _EPOCH = datetime.datetime(2000, 1, 1, tzinfo=datetime.timezone.utc)
+    val = _EPOCH + datetime.timedelta(milliseconds=ms)
+    return val if timeform == 'datetime' else val.isoformat()
+
+
+def to_repo_primary(pri, timeform=None):
     kwargs = dict(
         bp_version=pri.get('version', 7),
         bundle_flags=pri['flags'],
@@ -18,7 +35,7 @@ def to_repo_primary(pri):
         destination=ref9171.eid_text(pri['dest']),
         source=ref9171.eid_text(pri['src']),
         report_to=ref9171.eid_text(pri['rpt']),
-        create_ts=Timestamp(dtntime=pri['ts'][0], seqno=pri['ts'][1]),
+        create_ts=Timestamp(dtntime=time_value(pri['ts'][0], timeform), seqno=pri['ts'][1]),
         lifetime=pri['lifetime'],
     )
     if pri.get('frag') is not None:
@@ -27,7 +44,7 @@ def to_repo_primary(pri):
     return PrimaryBlock(**kwargs)
 
 
-def to_repo_block(blk, objform=False, admin=False):
+def to_repo_block(blk, objform=False, admin=False, timeform=None):
     ''' objform: build known block types from a payload object (as the agent
     does when it originates them) instead of from BTSD octets.  objform='bound':
     additionally leave the type code of such blocks to scapy's layer binding
@@ -45,10 +62,10 @@ def to_repo_block(blk, objform=False, admin=False):
                 rep = ref9171.parse_status_report(blk['data'])
                 sia = StatusInfoArray()
                 for name, (flag, when) in zip(('received', 'forwarded', 'delivered', 'deleted'), rep['status']):
-                    sia.setfieldval(name, StatusInfo(status=flag, at=when))
+                    sia.setfieldval(name, StatusInfo(status=flag, at=time_value(when, timeform) if when is not None else when))
                 kwargs = dict(status=sia, reason_code=rep['reason'],
                               subj_source=ref9171.eid_text(rep['src']),
-                              subj_ts=Timestamp(dtntime=rep['ts'][0], seqno=rep['ts'][1]))
+                              subj_ts=Timestamp(dtntime=time_value(rep['ts'][0], timeform), seqno=rep['ts'][1]))
                 if rep['frag'] is not None:
                     kwargs['fragment_offset'] = rep['frag'][0]
                     kwargs['payload_len'] = rep['frag'][1]
@@ -65,11 +82,11 @@ def to_repo_block(blk, objform=False, admin=False):
     return CanonicalBlock(btsd=data, **base)
 
 
-def to_repo(bundle, objform=False):
+def to_repo(bundle, objform=False, timeform=None):
     admin = bool(bundle['primary']['flags'] & ref9171.FLAG_ADMIN)
     obj = Bundle()
-    obj.primary = to_repo_primary(bundle['primary'])
-    obj.blocks = [to_repo_block(blk, objform, admin) for blk in bundle['blocks']]
+    obj.primary = to_repo_primary(bundle['primary'], timeform)
+    obj.blocks = [to_repo_block(blk, objform, admin, timeform) for blk in bundle['blocks']]
     return obj
 
 
